@@ -120,6 +120,11 @@ for k in [0, 1, 2, 3, -1, -2, 0.5, 2.5]:
         d = None
     T('pow(A,%s)' % k, 'A', (lambda r, k=k: r ** k), dom=d, tags=('core', 'poly') if k in (0, 1, 2, 3) else ('core',))
 
+# exponent that is itself a traced value (scalar register / array of the same type): x**y = exp(log(x)*y)
+for _ty in 'SVM':
+    T('pow(%s,S)' % _ty, _ty + 'S', (lambda r, s: r ** s), dom=pos(0), tags=('core',))
+T('pow(A,A)', 'AA', (lambda r, s: r ** s), dom=pos(0), tags=('core',))
+
 # ---------------------------------------------------------------- elementary / special functions
 _un = {
     'exp': None, 'expm1': None, 'log': pos(0), 'log1p': pos(0, -0.8), 'sqrt': pos(0), 'sin': None, 'cos': None,
